@@ -1,4 +1,8 @@
 import Flowjaxv.Proofs.Families
+import Flowjaxv.Proofs.FamiliesMvn
+import Flowjaxv.Proofs.FamiliesLaw
+import Flowjaxv.Proofs.FamiliesEF
+import Flowjaxv.Proofs.FamiliesMix
 /-!
 # C05 — the provided parametric families compute their textbook log-densities
 
@@ -6,11 +10,20 @@ Every theorem is about `Families.*` (`Model/Families.lean`): the GENERATED stand
 (`Gen/Dist.lean`, through the `jax.scipy.stats` specs of `Prelude/Stats.lean`) under the GENERATED
 `AbstractTransformed._log_prob` with the bijection the constructor builds (generated
 `Affine`/`Scale`/`Exp`/`Chain`, scale through the generated `SoftPlus` reparameterisation).
-The textbook density is written out in each statement.  Over `ℝ` there is no `−∞`/NaN: the
-statements are on the support; outside it (and the NaN → −∞ line of the public `log_prob`) the
-model is run at `Float` against the real code by `tools/props/c05.py`.
+The textbook density is written out in each statement.  Over `ℝ` there is no `−∞`/NaN: the `ℝ`
+statements are on the support; "−∞ outside the support, never NaN" is proved for the SAME definitions
+instantiated at `EF` (reals + `±∞` + NaN with IEEE special-value rules, `Proofs/EF.lean`) together with the
+last line of the public `log_prob` (`Families.publicLp`); the `Float` instantiation is run against the
+real code by `tools/props/c05.py`.
+
+`MultivariateNormal(loc, covariance)`: the Cholesky factorisation is a numerical primitive; the model takes
+`L = linalg.cholesky(covariance)` (`MvnPf.CholFactor n L`: square, lower triangular, positive diagonal) and
+goes through the hand model of `TriangularAffine`'s constructor (SoftPlus-reparameterised diagonal).
+
+Sample laws: every `_Standard…._sample` is one `jax.random` primitive (trusted to have the standard law,
+which is the base measure in each statement); everything the flowjax code does after that is proved.
 -/
-open Gen Families ProbabilityTheory
+open Gen Families ProbabilityTheory MeasureTheory
 
 namespace C05
 
@@ -214,6 +227,357 @@ theorem normal_sample_law (μ σ : ℝ) (h : 0 < σ) :
       = gaussianReal μ (NNReal.mk (σ ^ 2) (sq_nonneg σ)) :=
   FamiliesPf.normal_sample_law μ σ h
 
+
+/-! ### MultivariateNormal -/
+
+/-- the constructor path `TriangularAffine(loc, cholesky(covariance))`: for a Cholesky factor `L` (what
+`linalg.cholesky` returns) and `loc` of `n` entries the constructor accepts, and the unwrapped distribution
+is `Transformed(StandardNormal((n,)), TriangularAffine{triangular = L, loc, lower})` with the stored
+(SoftPlus-reparameterised) matrix EXACTLY `L` -/
+theorem mvn_constructor {n : ℕ} {L : List (List ℝ)} (h : MvnPf.CholFactor n L) {loc : List ℝ}
+    (hl : loc.length = n) : mvn loc L = some (MvnPf.mvnDist n loc L) :=
+  MvnPf.mvn_eq h hl
+
+/-- a one-entry `loc` (scalar) is broadcast to every dimension -/
+theorem mvn_constructor_scalar_loc {n : ℕ} {L : List (List ℝ)} (h : MvnPf.CholFactor n L) (l : ℝ) :
+    mvn [l] L = some (MvnPf.mvnDist n (List.replicate n l) L) := by
+  simp only [mvn, MvnPf.mvnBijection_chol_scalar h, Option.map_some, h.sq.1, MvnPf.mvnDist]
+
+/-- **mvn_log_prob**, with the modelled triangular solve: for every dimension `n`, `loc`, Cholesky factor `L`
+and point `x`:  `log_prob x = −(n/2)·log(2π) − Σᵢ log Lᵢᵢ − ½‖L⁻¹(x − loc)‖²`, `L⁻¹(·)` being the forward
+substitution `solve_triangular` performs -/
+theorem mvn_log_prob {n : ℕ} {L : List (List ℝ)} (h : MvnPf.CholFactor n L) {loc x : List ℝ}
+    (hl : loc.length = n) (hx : x.length = n) :
+    ∃ d, mvn loc L = some d ∧
+      d.logProb x ()
+        = -(n : ℝ) / 2 * Real.log (2 * Real.pi) - ∑ i : Fin n, Real.log (TriPf.toMat n L i i)
+          - 1 / 2 * ((Tri.solveLower L (List.zipWith (fun a b => a - b) x loc)).map (fun t => t ^ 2)).sum :=
+  ⟨_, MvnPf.mvn_eq h hl, MvnPf.mvnDist_logProb h hl hx⟩
+
+/-- … and the forward substitution really solves `L z = x − loc` (so `z = L⁻¹(x − loc)`) -/
+theorem mvn_solve_spec {n : ℕ} {L : List (List ℝ)} (h : MvnPf.CholFactor n L) (r : Fin n → ℝ) :
+    Matrix.mulVec (TriPf.toMat n L) (VecLd.toVec n (Tri.solveLower L (List.ofFn r))) = r :=
+  MvnPf.mulVec_solveLower h r
+
+/-- **the textbook multivariate normal log-density**: with `Σ = L Lᵀ` (Mathlib matrices),
+`log_prob x = −(n/2)·log(2π) − ½·log det Σ − ½·(x − μ)ᵀ Σ⁻¹ (x − μ)` -/
+theorem mvn_log_prob_textbook {n : ℕ} {L : List (List ℝ)} (h : MvnPf.CholFactor n L) (μ x : Fin n → ℝ)
+    (S : Matrix (Fin n) (Fin n) ℝ) (hS : TriPf.toMat n L * (TriPf.toMat n L).transpose = S) :
+    ∃ d, mvn (List.ofFn μ) L = some d ∧
+      d.logProb (List.ofFn x) ()
+        = -(n : ℝ) / 2 * Real.log (2 * Real.pi) - 1 / 2 * Real.log S.det
+          - 1 / 2 * (dotProduct (x - μ) (Matrix.mulVec S⁻¹ (x - μ))) := by
+  subst hS
+  exact ⟨_, MvnPf.mvn_eq h (by simp), MvnPf.mvnDist_logProb_matrix h μ x⟩
+
+/-- **every parameter value reachable by training**: for any raw (trainable) diagonal `raw`, any stored square
+array `arr` and any `loc`, the unwrapped object `Transformed(StandardNormal((n,)), TriangularAffine{triangular =
+_to_triangular(softplus raw, arr), loc})` is the multivariate normal with Cholesky factor `L' = _to_triangular(…)`
+(lower triangular, diagonal `softplus rawᵢ > 0`): the textbook log-density with `Σ = L' L'ᵀ` -/
+theorem mvn_trained_log_prob {n : ℕ} (raw : List ℝ) (arr : List (List ℝ)) (hsq : TriPf.Square n arr)
+    (hr : raw.length = n) (μ x : Fin n → ℝ) :
+    MvnPf.CholFactor n (Params.triangularOfRaw true raw arr) ∧
+    (Transformed.mk (stdNormalVec n)
+        ((Tri.ofRaw true raw arr (List.ofFn μ)).toBij : Bij (List ℝ) Unit ℝ)).toDist.logProb (List.ofFn x) ()
+      = -(n : ℝ) / 2 * Real.log (2 * Real.pi)
+        - 1 / 2 * Real.log ((TriPf.toMat n (Params.triangularOfRaw true raw arr)
+            * (TriPf.toMat n (Params.triangularOfRaw true raw arr)).transpose).det)
+        - 1 / 2 * (dotProduct (x - μ) (Matrix.mulVec (TriPf.toMat n (Params.triangularOfRaw true raw arr)
+            * (TriPf.toMat n (Params.triangularOfRaw true raw arr)).transpose)⁻¹ (x - μ))) :=
+  ⟨MvnPf.cholFactor_ofRaw raw arr hsq hr,
+   MvnPf.mvnDist_logProb_matrix (MvnPf.cholFactor_ofRaw raw arr hsq hr) μ x⟩
+
+/-- `.loc` returns the constructor's (broadcast) vector -/
+theorem mvn_accessor_loc {n : ℕ} {L : List (List ℝ)} (h : MvnPf.CholFactor n L) {loc : List ℝ}
+    (hl : loc.length = n) : mvnLoc loc L = some loc := by
+  simp only [mvnLoc, MvnPf.mvnBijection_chol h hl, Option.map_some]
+
+/-- `.covariance` (`cholesky @ cholesky.T` of the unwrapped triangular matrix) reproduces `Σ = L Lᵀ` -/
+theorem mvn_accessor_covariance {n : ℕ} {L : List (List ℝ)} (h : MvnPf.CholFactor n L) {loc : List ℝ}
+    (hl : loc.length = n) (S : Matrix (Fin n) (Fin n) ℝ)
+    (hS : TriPf.toMat n L * (TriPf.toMat n L).transpose = S) :
+    ∃ cov, mvnCovariance loc L = some cov ∧ TriPf.Square n cov ∧ TriPf.toMat n cov = S := by
+  refine ⟨matMulT L, ?_, MvnPf.matMulT_square h.sq, ?_⟩
+  · simp only [mvnCovariance, MvnPf.mvnBijection_chol h hl, Option.map_some]
+  · rw [MvnPf.toMat_matMulT h.sq, hS]
+
+/-- the sampler: `L z + loc` of the base sample `z` -/
+theorem mvn_sample {n : ℕ} (loc : List ℝ) (L : List (List ℝ)) (z : List ℝ) :
+    (MvnPf.mvnDist n loc L).sample z () = List.zipWith (fun a b => a + b) (Tri.matVec L z) loc := rfl
+
+theorem mvn_sample_and_log_prob_consistent {n : ℕ} {L : List (List ℝ)} (h : MvnPf.CholFactor n L)
+    {loc : List ℝ} (hl : loc.length = n) {z : List ℝ} (hz : z.length = n) :
+    (MvnPf.mvnDist n loc L).sampleLp z ()
+      = ((MvnPf.mvnDist n loc L).sample z (),
+         (MvnPf.mvnDist n loc L).logProb ((MvnPf.mvnDist n loc L).sample z ()) ()) :=
+  MvnPf.mvnDist_consistent h hl hz
+
+/-- samples follow the density: a standard normal base sample on `ℝⁿ` (density
+`exp ∘ StandardNormal((n,))._log_prob`) is mapped to the law with density `exp ∘ log_prob` -/
+theorem mvn_sample_law {n : ℕ} {L : List (List ℝ)} (h : MvnPf.CholFactor n L) (μ : Fin n → ℝ) :
+    Measure.map (fun z : Fin n → ℝ =>
+        VecLd.toVec n ((MvnPf.mvnDist n (List.ofFn μ) L).sample (List.ofFn z) ()))
+        (volume.withDensity fun z => ENNReal.ofReal (Real.exp ((stdNormalVec n).logProb (List.ofFn z) ())))
+      = volume.withDensity fun x =>
+          ENNReal.ofReal (Real.exp ((MvnPf.mvnDist n (List.ofFn μ) L).logProb (List.ofFn x) ())) :=
+  MvnPf.mvn_sample_law h μ
+
+/-- the standard normal of shape `(n,)`: `−(n/2)·log(2π) − ½ Σ zᵢ²` -/
+theorem standard_normal_vec_log_prob {n : ℕ} {z : List ℝ} (h : z.length = n) :
+    (stdNormalVec n).logProb z ()
+      = -(n : ℝ) / 2 * Real.log (2 * Real.pi) - 1 / 2 * (z.map (fun t => t ^ 2)).sum :=
+  MvnPf.stdNormalVec_logProb h
+
+/-! ### samples follow the density
+
+Base measures are the laws of the `jax.random` primitives (trusted); the theorems push them through the code's
+bijection.  `exp ∘ log_prob` on the right-hand side is the textbook density by the theorems above. -/
+
+/-- **generic location–scale law**: base density `p` ⇒ the sampler `scale·z + loc` has density
+`p((x − loc)/scale)/scale` -/
+theorem locscale_sample_law (lp : ℝ → ℝ) (loc scale : ℝ) (h : 0 < scale) (p : ℝ → ℝ) :
+    Measure.map (fun z => (locScale lp loc scale).sample z ())
+        (volume.withDensity fun z => ENNReal.ofReal (p z))
+      = volume.withDensity fun x => ENNReal.ofReal (p ((x - loc) / scale) / scale) :=
+  FamiliesLaw.locScale_law lp loc scale h p
+
+/-- … so a base with density `exp ∘ lp` gives density `exp ∘ log_prob` -/
+theorem locscale_sample_law_exp (lp : ℝ → ℝ) (loc scale : ℝ) (h : 0 < scale) :
+    Measure.map (fun z => (locScale lp loc scale).sample z ())
+        (volume.withDensity fun z => ENNReal.ofReal (Real.exp (lp z)))
+      = volume.withDensity fun x => ENNReal.ofReal (Real.exp ((locScale lp loc scale).logProb x ())) :=
+  FamiliesLaw.locScale_law_exp lp loc scale h
+
+/-- the `Exp` push-forward used by LogNormal -/
+theorem exp_sample_law (p : ℝ → ℝ) :
+    Measure.map Real.exp (volume.withDensity fun z => ENNReal.ofReal (p z))
+      = volume.withDensity fun y => if 0 < y then ENNReal.ofReal (p (Real.log y) / y) else 0 :=
+  FamiliesLaw.exp_law p
+
+theorem gumbel_sample_law (μ β : ℝ) (h : 0 < β) :
+    Measure.map (fun z => (gumbel μ β).sample z ())
+        (volume.withDensity fun z => ENNReal.ofReal (Real.exp (-(z + Real.exp (-z)))))
+      = volume.withDensity fun x => ENNReal.ofReal (Real.exp ((gumbel μ β).logProb x ())) :=
+  FamiliesLaw.gumbel_law μ β h
+
+theorem cauchy_sample_law (x₀ γ : ℝ) (h : 0 < γ) :
+    Measure.map (fun z => (cauchy x₀ γ).sample z ()) (cauchyMeasure 0 1)
+      = cauchyMeasure x₀ (NNReal.mk γ h.le) :=
+  FamiliesLaw.cauchy_law_mathlib x₀ γ h
+
+theorem cauchy_sample_law_density (x₀ γ : ℝ) (h : 0 < γ) :
+    Measure.map (fun z => (cauchy x₀ γ).sample z ())
+        (volume.withDensity fun z => ENNReal.ofReal (Real.exp (-Real.log Real.pi - Real.log (1 + z * z))))
+      = volume.withDensity fun x => ENNReal.ofReal (Real.exp ((cauchy x₀ γ).logProb x ())) :=
+  FamiliesLaw.cauchy_law x₀ γ h
+
+theorem laplace_sample_law (μ b : ℝ) (h : 0 < b) :
+    Measure.map (fun z => (laplace μ b).sample z ())
+        (volume.withDensity fun z => ENNReal.ofReal (Real.exp (-|z| - Real.log 2)))
+      = volume.withDensity fun x => ENNReal.ofReal (Real.exp ((laplace μ b).logProb x ())) :=
+  FamiliesLaw.laplace_law μ b h
+
+theorem logistic_sample_law (μ s : ℝ) (h : 0 < s) :
+    Measure.map (fun z => (logistic μ s).sample z ())
+        (volume.withDensity fun z => ENNReal.ofReal (Real.exp (-z - 2 * Real.log (1 + Real.exp (-z)))))
+      = volume.withDensity fun x => ENNReal.ofReal (Real.exp ((logistic μ s).logProb x ())) :=
+  FamiliesLaw.logistic_law μ s h
+
+theorem studentT_sample_law (ν μ σ : ℝ) (hν : 0 < ν) (h : 0 < σ) :
+    Measure.map (fun z => (studentT ν μ σ).sample z ())
+        (volume.withDensity fun z => ENNReal.ofReal (Real.exp
+          (Real.log (Real.Gamma ((ν + 1) / 2)) - Real.log (Real.Gamma (ν / 2)) - Real.log (ν * Real.pi) / 2
+            - (ν + 1) / 2 * Real.log (1 + z * z / ν))))
+      = volume.withDensity fun x => ENNReal.ofReal (Real.exp ((studentT ν μ σ).logProb x ())) :=
+  FamiliesLaw.studentT_law ν μ σ hν h
+
+/-- Normal once more, against Lebesgue densities (`normal_sample_law` above is the Mathlib-Gaussian form) -/
+theorem normal_sample_law_density (μ σ : ℝ) (h : 0 < σ) :
+    Measure.map (fun z => (normal μ σ).sample z ())
+        (volume.withDensity fun z => ENNReal.ofReal (Real.exp (-(z * z) / 2 - Real.log (Real.sqrt (2 * Real.pi)))))
+      = volume.withDensity fun x => ENNReal.ofReal (Real.exp ((normal μ σ).logProb x ())) :=
+  FamiliesLaw.normal_law μ σ h
+
+/-- Uniform: base uniform on `[0, 1]`; density `exp ∘ log_prob = 1/(b − a)` on `[a, b]`, `0` outside -/
+theorem uniform_sample_law (a b : ℝ) (h : a < b) :
+    Measure.map (fun z => (uniform a b).sample z ()) (volume.restrict (Set.Icc 0 1))
+      = volume.withDensity fun x =>
+          if a ≤ x ∧ x ≤ b then ENNReal.ofReal (Real.exp ((uniform a b).logProb x ())) else 0 :=
+  FamiliesLaw.uniform_law a b h
+
+/-- Exponential: `Scale(1/λ)` maps Mathlib's `expMeasure 1` to `expMeasure λ` … -/
+theorem exponential_sample_law (lam : ℝ) (h : 0 < lam) :
+    Measure.map (fun z => (exponential lam).sample z ()) (expMeasure 1) = expMeasure lam :=
+  FamiliesLaw.exponential_law lam h
+
+/-- … whose density is `exp ∘ log_prob` on `[0, ∞)` and `0` on the negative half-line -/
+theorem exponential_sample_law_density (lam : ℝ) (h : 0 < lam) :
+    Measure.map (fun z => (exponential lam).sample z ()) (expMeasure 1)
+      = volume.withDensity fun x =>
+          if 0 ≤ x then ENNReal.ofReal (Real.exp ((exponential lam).logProb x ())) else 0 :=
+  FamiliesLaw.exponential_law_density lam h
+
+/-- LogNormal: `exp(σz + μ)` of a standard Gaussian `z`; density `exp ∘ log_prob` on `(0, ∞)`, `0` elsewhere -/
+theorem lognormal_sample_law (μ σ : ℝ) (h : 0 < σ) :
+    Measure.map (fun z => (logNormal μ σ).sample z ()) (gaussianReal 0 1)
+      = volume.withDensity fun x =>
+          if 0 < x then ENNReal.ofReal (Real.exp ((logNormal μ σ).logProb x ())) else 0 :=
+  FamiliesLaw.logNormal_law μ σ h
+
+/-! ### minus infinity outside the support, never NaN (extended reals `EF`) -/
+
+/-- **never NaN**: the public `log_prob` (`jnp.where(isnan(lps), -inf, lps)`) of ANY private value -/
+theorem public_log_prob_never_nan (v : EF) : ¬ EF.isNaN (publicLp v) := EF.publicLp_not_nan v
+
+/-- … and the public value differs from the private one only when that is NaN (then it is `−∞`) -/
+theorem public_log_prob_spec (v : EF) :
+    (¬ EF.isNaN v → publicLp v = v) ∧ (EF.isNaN v → publicLp v = EF.ninf) := by
+  refine ⟨EF.publicLp_of_not_nan, ?_⟩
+  cases v <;> simp [EF.isNaN]
+
+/-- Uniform(a, b) at EVERY real point: `−log(b − a)` on `[a, b]`, exactly `−∞` outside (private value; no NaN
+arises, so the public value is the same) -/
+theorem uniform_log_prob_ext (a b x : ℝ) (h : a < b) :
+    (uniform (EF.fin a) (EF.fin b)).logProb (EF.fin x) ()
+      = if a ≤ x ∧ x ≤ b then EF.fin (-Real.log (b - a)) else EF.ninf :=
+  FamiliesEF.uniform_logProb a b x h
+
+theorem uniform_public_outside (a b x : ℝ) (h : a < b) (hx : x < a ∨ b < x) :
+    publicLp ((uniform (EF.fin a) (EF.fin b)).logProb (EF.fin x) ()) = EF.ninf := by
+  rw [uniform_log_prob_ext a b x h, if_neg (by rintro ⟨h1, h2⟩; rcases hx with hx | hx <;> linarith)]
+  exact EF.publicLp_ninf
+
+theorem uniform_log_prob_at_infinity (a b : ℝ) (h : a < b) :
+    (uniform (EF.fin a) (EF.fin b)).logProb EF.pinf () = EF.ninf ∧
+    (uniform (EF.fin a) (EF.fin b)).logProb EF.ninf () = EF.ninf :=
+  FamiliesEF.uniform_logProb_inf a b h
+
+/-- observation (a NaN input is not a point of the sample space, so outside the property): Uniform alone returns the
+finite in-support value for a NaN input — the real `Uniform(0, 2).log_prob(nan)` is `−log 2`; every other family gives `−∞` -/
+theorem uniform_nan_input_observation (a b : ℝ) (h : a < b) :
+    (uniform (EF.fin a) (EF.fin b)).logProb EF.nan () = EF.fin (-Real.log (b - a)) :=
+  FamiliesEF.uniform_logProb_nan a b h
+
+/-- Exponential(λ) at every real point: `log λ − λx` on `[0, ∞)`, exactly `−∞` for `x < 0` -/
+theorem exponential_log_prob_ext (lam x : ℝ) (h : 0 < lam) :
+    (exponential (EF.fin lam)).logProb (EF.fin x) ()
+      = if 0 ≤ x then EF.fin (Real.log lam - lam * x) else EF.ninf :=
+  FamiliesEF.exponential_logProb lam x h
+
+theorem exponential_public_outside (lam x : ℝ) (h : 0 < lam) (hx : x < 0) :
+    publicLp ((exponential (EF.fin lam)).logProb (EF.fin x) ()) = EF.ninf := by
+  rw [exponential_log_prob_ext lam x h, if_neg (not_le.mpr hx)]
+  exact EF.publicLp_ninf
+
+/-- at `+∞`: `−∞`; at `−∞` the private value is NaN (`∞ − ∞`), the public one `−∞` -/
+theorem exponential_log_prob_at_infinity (lam : ℝ) (h : 0 < lam) :
+    (exponential (EF.fin lam)).logProb EF.pinf () = EF.ninf ∧
+    publicLp ((exponential (EF.fin lam)).logProb EF.ninf ()) = EF.ninf :=
+  FamiliesEF.exponential_logProb_inf lam h
+
+/-- LogNormal on its support `x > 0`: finite, the value of `lognormal_log_prob` -/
+theorem lognormal_log_prob_ext (μ σ x : ℝ) (h : 0 < σ) (hx : 0 < x) :
+    (logNormal (EF.fin μ) (EF.fin σ)).logProb (EF.fin x) () = EF.fin ((logNormal μ σ).logProb x ()) :=
+  FamiliesEF.logNormal_logProb_pos μ σ x h hx
+
+/-- **LogNormal at `x ≤ 0`**: the private `_log_prob` is NaN (log of a negative number; at `0`: `−∞ + ∞`) and
+the public `log_prob` is `−∞` -/
+theorem lognormal_public_outside (μ σ x : ℝ) (h : 0 < σ) (hx : x ≤ 0) :
+    (logNormal (EF.fin μ) (EF.fin σ)).logProb (EF.fin x) () = EF.nan ∧
+    publicLp ((logNormal (EF.fin μ) (EF.fin σ)).logProb (EF.fin x) ()) = EF.ninf :=
+  FamiliesEF.logNormal_logProb_nonpos μ σ x h hx
+
+theorem lognormal_log_prob_at_infinity (μ σ : ℝ) (h : 0 < σ) :
+    (logNormal (EF.fin μ) (EF.fin σ)).logProb EF.pinf () = EF.ninf ∧
+    publicLp ((logNormal (EF.fin μ) (EF.fin σ)).logProb EF.ninf ()) = EF.ninf :=
+  FamiliesEF.logNormal_logProb_inf μ σ h
+
+/-- the full-support location–scale families: whenever the standard log-density maps every real to a real
+(value `lpR`), the family's private `_log_prob` at every real point is finite and equals the real-number model's
+value — no `±∞`, no NaN -/
+theorem locscale_log_prob_ext (lp : EF → EF) (lpR : ℝ → ℝ) (hlp : ∀ t, lp (EF.fin t) = EF.fin (lpR t))
+    (l s x : ℝ) (h : 0 < s) :
+    (locScale lp (EF.fin l) (EF.fin s)).logProb (EF.fin x) () = EF.fin ((locScale lpR l s).logProb x ()) :=
+  FamiliesEF.locScale_fin lp lpR hlp l s x h
+
+theorem normal_log_prob_ext (μ σ x : ℝ) (h : 0 < σ) :
+    (normal (EF.fin μ) (EF.fin σ)).logProb (EF.fin x) () = EF.fin ((normal μ σ).logProb x ()) :=
+  FamiliesEF.locScale_fin _ _ FamiliesEF.normLp_fin μ σ x h
+
+theorem gumbel_log_prob_ext (μ β x : ℝ) (h : 0 < β) :
+    (gumbel (EF.fin μ) (EF.fin β)).logProb (EF.fin x) () = EF.fin ((gumbel μ β).logProb x ()) :=
+  FamiliesEF.locScale_fin _ _ FamiliesEF.gumbelLp_fin μ β x h
+
+theorem cauchy_log_prob_ext (x₀ γ x : ℝ) (h : 0 < γ) :
+    (cauchy (EF.fin x₀) (EF.fin γ)).logProb (EF.fin x) () = EF.fin ((cauchy x₀ γ).logProb x ()) :=
+  FamiliesEF.locScale_fin _ _ FamiliesEF.cauchyLp_fin x₀ γ x h
+
+theorem laplace_log_prob_ext (μ b x : ℝ) (h : 0 < b) :
+    (laplace (EF.fin μ) (EF.fin b)).logProb (EF.fin x) () = EF.fin ((laplace μ b).logProb x ()) :=
+  FamiliesEF.locScale_fin _ _ FamiliesEF.laplaceLp_fin μ b x h
+
+theorem logistic_log_prob_ext (μ s x : ℝ) (h : 0 < s) :
+    (logistic (EF.fin μ) (EF.fin s)).logProb (EF.fin x) () = EF.fin ((logistic μ s).logProb x ()) :=
+  FamiliesEF.locScale_fin _ _ FamiliesEF.logisticLp_fin μ s x h
+
+theorem studentT_log_prob_ext (ν μ σ x : ℝ) (hν : 0 < ν) (h : 0 < σ) :
+    (studentT (EF.fin ν) (EF.fin μ) (EF.fin σ)).logProb (EF.fin x) () = EF.fin ((studentT ν μ σ).logProb x ()) := by
+  unfold studentT
+  rw [FamiliesEF.studentDf_fin ν hν, FamiliesPf.studentDf_eq ν hν]
+  exact FamiliesEF.locScale_fin _ _ (FamiliesEF.studentLp_fin ν hν) μ σ x h
+
+/-! ### VmapMixture: the sampling side -/
+
+/-- the `leaf[component]` selection: an in-range categorical draw selects exactly that component -/
+theorem mixture_take_in_range {β : Type} (comps : List β) {i : ℕ} (h : i < comps.length) :
+    mixtureTake comps i = some comps[i] := MixPf.mixtureTake_lt comps h
+
+/-- with at least one component the selection is always defined (an out-of-range traced index is clamped to the last
+component by JAX), so the `default` of `vmapMixture`'s sampler is never returned -/
+theorem mixture_take_defined {β : Type} (comps : List β) (hne : comps ≠ []) (i : ℕ) :
+    ∃ b ∈ comps, mixtureTake comps i = some b := by
+  rcases Nat.lt_or_ge i comps.length with h | h
+  · exact ⟨_, List.getElem_mem h, MixPf.mixtureTake_lt comps h⟩
+  · exact ⟨_, List.getElem_mem _, MixPf.mixtureTake_ge comps h hne⟩
+
+/-- `_sample(key)` is the selected component's `_sample(key2)` -/
+theorem mixture_sample_is_component_sample {X C K : Type} [Inhabited X] (comps : List (Distn X C K ℝ))
+    (ws : List ℝ) {i : ℕ} (h : i < comps.length) (key2 : K) (c : C) :
+    (vmapMixture comps ws).sample (i, key2) c = comps[i].sample key2 c :=
+  MixPf.vmapMixture_sample comps ws h key2 c
+
+/-- `_log_prob` of the whole object is the mixture formula of `mixture_density` over the components' values -/
+theorem mixture_object_log_prob {X C K : Type} [Inhabited X] (comps : List (Distn X C K ℝ)) (ws : List ℝ)
+    (h : ∀ w ∈ ws, 0 < w) (x : X) (c : C) :
+    (vmapMixture comps ws).logProb x c
+      = Real.log ((List.zipWith (fun w lp => w / ws.sum * Real.exp lp) ws
+          (comps.map (fun d => d.logProb x c))).sum) := by
+  rw [MixPf.vmapMixture_logProb, mixture_density ws h]
+
+/-- the inherited `_sample_and_log_prob`: the returned log-prob is `_log_prob` at the returned sample -/
+theorem mixture_sample_and_log_prob_consistent {X C K : Type} [Inhabited X] (comps : List (Distn X C K ℝ))
+    (ws : List ℝ) : (vmapMixture comps ws).Consistent := MixPf.vmapMixture_consistent comps ws
+
+/-- the categorical law `P(i) = wᵢ/Σw` (what `jr.categorical(key1, log_normalized_weights)` draws: trusted) is
+a probability law -/
+theorem categorical_law_normalised {ws : List ℝ} (hw : ∀ w ∈ ws, 0 < w) (hne : ws ≠ []) :
+    MixPf.catLaw ws Set.univ = 1 := MixPf.catLaw_univ hw hne
+
+/-- **mixture samples follow the mixture density**: categorical draw ~ `catLaw ws`, second key ~ any `κ`
+independently; every component's sampler has density `exp ∘ _log_prob` w.r.t. `μ` ⇒ so has the mixture's,
+for any number of components, any positive unnormalised weights, any point type -/
+theorem mixture_sample_law {X K : Type} [MeasurableSpace X] [MeasurableSpace K] [Inhabited X]
+    (μ : Measure X) (κ : Measure K) [SFinite κ]
+    (comps : List (Distn X Unit K ℝ)) (ws : List ℝ) (hlen : comps.length = ws.length) (hne : ws ≠ [])
+    (hw : ∀ w ∈ ws, 0 < w)
+    (hs : ∀ d ∈ comps, Measurable fun k => d.sample k ())
+    (hlp : ∀ d ∈ comps, Measurable fun x => d.logProb x ())
+    (hlaw : ∀ d ∈ comps, Measure.map (fun k => d.sample k ()) κ
+      = μ.withDensity fun x => ENNReal.ofReal (Real.exp (d.logProb x ()))) :
+    Measure.map (fun key : ℕ × K => (vmapMixture comps ws).sample key ()) ((MixPf.catLaw ws).prod κ)
+      = μ.withDensity fun x => ENNReal.ofReal (Real.exp ((vmapMixture comps ws).logProb x ())) :=
+  MixPf.mixture_sample_law μ κ comps ws hlen hne hw hs hlp hlaw
+
 /-! ### non-vacuity instances -/
 
 theorem normal_instance :
@@ -234,5 +598,73 @@ theorem mixture_weight_scale_instance (lps : List ℝ) :
   have := mixture_weight_scale_invariant [1, 3] (by simp) lps 2 (by norm_num)
   norm_num at this
   exact this
+
+/-! ### non-vacuity instances for MultivariateNormal, the extended-real statements and the mixture law -/
+
+theorem cholFactor_instance : MvnPf.CholFactor 2 [[2, 0], [1, 3]] := by
+  refine ⟨⟨rfl, by simp⟩, ?_, ?_⟩
+  · intro i j hij hj
+    have : i = 0 ∧ j = 1 := by omega
+    obtain ⟨rfl, rfl⟩ := this
+    simp [TriPf.entry]
+  · intro i hi
+    interval_cases i <;> simp [TriPf.entry]
+
+/-- `MultivariateNormal([1, −1], [[4, 2], [2, 10]])` (Cholesky factor `[[2, 0], [1, 3]]`) at its mean -/
+theorem mvn_instance :
+    ∃ d, mvn [1, -1] [[2, 0], [1, 3]] = some d ∧
+      d.logProb [1, -1] () = -Real.log (2 * Real.pi) - Real.log 2 - Real.log 3 := by
+  obtain ⟨d, hd, hlp⟩ := mvn_log_prob cholFactor_instance (loc := [1, -1]) (x := [1, -1]) rfl rfl
+  refine ⟨d, hd, ?_⟩
+  rw [hlp, Fin.sum_univ_two]
+  simp [TriPf.toMat, TriPf.entry, TriPf.solveLower_cons, TriPf.solveLower_nil]
+  ring
+
+theorem mvn_covariance_instance :
+    TriPf.toMat 2 [[2, 0], [1, 3]] * (TriPf.toMat 2 [[2, 0], [1, 3]]).transpose = !![4, 2; 2, 10] := by
+  ext i j
+  fin_cases i <;> fin_cases j <;> simp [Matrix.mul_apply, Fin.sum_univ_two, TriPf.toMat, TriPf.entry] <;> norm_num
+
+theorem uniform_outside_instance :
+    publicLp ((uniform (EF.fin 0) (EF.fin 1)).logProb (EF.fin 2) ()) = EF.ninf :=
+  uniform_public_outside 0 1 2 one_pos (Or.inr (by norm_num))
+
+theorem lognormal_outside_instance :
+    publicLp ((logNormal (EF.fin 0) (EF.fin 1)).logProb (EF.fin (-1)) ()) = EF.ninf :=
+  (lognormal_public_outside 0 1 (-1) one_pos (by norm_num)).2
+
+theorem normal_logProb_measurable (μ σ : ℝ) (h : 0 < σ) : Measurable fun x => (normal μ σ).logProb x () := by
+  have : (fun x => (normal μ σ).logProb x ())
+      = fun x => -(x - μ) ^ 2 / (2 * σ ^ 2) - Real.log (σ * Real.sqrt (2 * Real.pi)) := by
+    funext x; exact normal_log_prob μ σ x h
+  rw [this]; fun_prop
+
+/-- a two-component Normal mixture satisfies every hypothesis of `mixture_sample_law` -/
+theorem mixture_sample_law_instance :
+    Measure.map (fun key : ℕ × ℝ => (vmapMixture [normal 0 1, normal 3 2] [1, 3]).sample key ())
+        ((MixPf.catLaw [1, 3]).prod (volume.withDensity fun z =>
+          ENNReal.ofReal (Real.exp (-(z * z) / 2 - Real.log (Real.sqrt (2 * Real.pi))))))
+      = volume.withDensity fun x =>
+          ENNReal.ofReal (Real.exp ((vmapMixture [normal 0 1, normal 3 2] [1, 3]).logProb x ())) := by
+  apply mixture_sample_law volume _ _ _ rfl (by simp) (by simp)
+  · intro d hd
+    simp only [List.mem_cons, List.not_mem_nil, or_false] at hd
+    rcases hd with rfl | rfl
+    · have : (fun k : ℝ => (normal (0 : ℝ) 1).sample k ()) = fun k => 1 * k + 0 := by
+        funext k; exact locscale_sample _ 0 1 k one_pos
+      rw [this]; fun_prop
+    · have : (fun k : ℝ => (normal (3 : ℝ) 2).sample k ()) = fun k => 2 * k + 3 := by
+        funext k; exact locscale_sample _ 3 2 k two_pos
+      rw [this]; fun_prop
+  · intro d hd
+    simp only [List.mem_cons, List.not_mem_nil, or_false] at hd
+    rcases hd with rfl | rfl
+    · exact normal_logProb_measurable 0 1 one_pos
+    · exact normal_logProb_measurable 3 2 two_pos
+  · intro d hd
+    simp only [List.mem_cons, List.not_mem_nil, or_false] at hd
+    rcases hd with rfl | rfl
+    · exact normal_sample_law_density 0 1 one_pos
+    · exact normal_sample_law_density 3 2 two_pos
 
 end C05
